@@ -26,7 +26,13 @@ informative.  Where a value below one page has both a zero-page and an absolute 
 absolute form (`encodeAbs`) counts as documented too (`Documented`).
 
 The second half is the concrete syntax: the tokeniser ("delimiters `( ) ,` and maximal
-non-delimiter runs, blanks dropped") and the token sequences of the nine shapes.
+non-delimiter runs, white space dropped") and the token sequences of the nine shapes.  Two points
+were corrected when the full soundness theorem `asm_sound` (Props/C07) was proved:
+  * white space is every ASCII character `str.split()` splits at (space, \t \n \v \f \r,
+    \x1c..\x1f), not only space and tab: `"LDA\n$10"` is `LDA $10`;
+  * a character literal is ONE token: in a word that so far reads `#'` or `#"` the next character
+    is taken as it stands even when it is a delimiter (`LDA #'('` is `LDA #$28`); white space still
+    ends the word (`#' '` denotes nothing).
 
 `W` is the byte width (8; 16 on the 65Org16), the address width is `2 W`.   No Mathlib.
 -/
@@ -258,21 +264,30 @@ inductive Tok
   | word (s : Str)
   deriving DecidableEq, Repr
 
-def isBlank (c : Char) : Bool := c = ' ' || c = '\t'
+/-- White space between tokens: what `str.split()` / `\s` accept in ASCII -- space, \t \n \v \f \r
+and the separators \x1c..\x1f. -/
+def isBlank (c : Char) : Bool :=
+  (c.toNat = 32 || (9 ≤ c.toNat && c.toNat ≤ 13)) || (28 ≤ c.toNat && c.toNat ≤ 31)
 def isDelim (c : Char) : Bool := c = '(' || c = ')' || c = ','
+
+/-- The word read so far (reversed) is `#'` or `#"`: the next character is the character of a
+character literal. -/
+def litOpen (cur : Str) : Bool := cur = ['\'', '#'] || cur = ['"', '#']
 
 /-- ASCII upper-casing. -/
 def upperC (c : Char) : Char :=
   if 97 ≤ c.toNat ∧ c.toNat ≤ 122 then Char.ofNat (c.toNat - 32) else c
 def upperS (s : Str) : Str := s.map upperC
 
-/-- Tokeniser: `( ) ,` are tokens, blanks and tabs separate and are dropped, every maximal run
-of other characters is one word.  `cur` is the word being read, reversed. -/
+/-- Tokeniser: `( ) ,` are tokens, white space separates and is dropped, every maximal run of
+other characters is one word; the character after `#'` / `#"` belongs to the word whatever it is
+(white space excepted).  `cur` is the word being read, reversed. -/
 def tokensAux : Str → Str → List Tok
   | [], cur => if cur = [] then [] else [.word cur.reverse]
   | c :: cs, cur =>
     let flush : List Tok := if cur = [] then [] else [.word cur.reverse]
     if isBlank c then flush ++ tokensAux cs []
+    else if litOpen cur then tokensAux cs (c :: cur)
     else if c = '(' then flush ++ .lparen :: tokensAux cs []
     else if c = ')' then flush ++ .rparen :: tokensAux cs []
     else if c = ',' then flush ++ .comma :: tokensAux cs []
@@ -297,6 +312,13 @@ def parseOperand : List Tok → Option (Shape × Str)
   | [.lparen, .word w, .rparen] => some (.ind, w)
   | [.lparen, .word w, .comma, .word r, .rparen] => if isX r then some (.indX, w) else none
   | [.lparen, .word w, .rparen, .comma, .word r] => if isY r then some (.indY, w) else none
+  | _ => none
+
+/-- The character a character-literal operand word denotes: `'c'`, `"c"`; the closing quote may be
+missing (`'c`: py65 accepts it, the "either" zone of the property). -/
+def charLit (w : Str) : Option Char :=
+  match w with
+  | q :: c :: r => if (q = '\'' ∨ q = '"') ∧ (r = [] ∨ r = [q]) then some c else none
   | _ => none
 
 /-- A statement text denotes `(mnemonic upper-cased, shape, operand word)`. -/
